@@ -181,7 +181,7 @@ def grid(ctx):
     combos = [(b, k, n) for b in range(len(BATCHES)) for k in KS for n in SIZES]          # 48
     snames = list(SETTINGS)
     if ctx.quick:
-        per = 3
+        per = 5
         idx = 0
         for ci, cls in enumerate(classes):
             for si, sn in enumerate(snames):
@@ -321,6 +321,12 @@ def eval_case(case):
             if res["out_shape"] != exp_shape:
                 res["fails"].append({"fail": "shape", "observed": res["out_shape"], "expected": exp_shape})
                 return res
+            degenerate = (st[0] or (st[1] < 800 and st[2])) and not spectrum_ok(e)
+            if degenerate and not bool(torch.isfinite(out0).all()):
+                # NaN root from a Lanczos breakdown on a degenerate spectrum: properties C06 / C09
+                res["notes"].append("root accuracy not assessed (approximate root is not finite on a degenerate spectrum)")
+                res["root_failed"] = True
+                return res
             if not st[0] and out0.numel() and float(out0.abs().max()) != 0.0:
                 res["fails"].append({"fail": "not-linear", "what": "non-zero draws from zero noise",
                                      "observed": float(out0.abs().max())})
@@ -329,7 +335,7 @@ def eval_case(case):
             base = None
             if st[0]:      # CIQ: finite differences around generic noise (see c18_noise.jacobian)
                 g = torch.Generator().manual_seed(case["nseed"] % (1 << 31))
-                base = [torch.randn(M.prod(s), generator=g, dtype=torch.float64) for s, _ in plan]
+                base = [N._real_randn(M.prod(s), generator=g, dtype=torch.float64) for s, _ in plan]
             J, offs = N.jacobian(patch, op.zero_mean_mvn_samples, k, plan, base=base)
             if node is not None:
                 M.resolve_roots(node, st)
@@ -394,6 +400,16 @@ def eval_case(case):
                         ("interp-asymmetric" if contains(e, interp_asym) else "unknown")
             except Exception:
                 pass
+            if "cause" not in f and st[0]:
+                # CIQ runs MINRES on closures around op._matmul; operators whose _matmul returns its argument
+                # (Identity-like) are corrupted by MINRES' in-place updates (listed under property C11)
+                try:
+                    for lop in ([lf["leaf"] for lf in gens if lf["s"] == "gen"] or [op]):
+                        x = torch.ones(*lop.shape[:-1], 1, dtype=torch.float64)
+                        if lop._matmul(x).data_ptr() == x.data_ptr():
+                            f["cause"] = "matmul-returns-argument"
+                except Exception:
+                    pass
             res["fails"].append(f)
         if not cross <= (1e-5 if st[0] else 1e-9):
             res["fails"].append({"fail": "draws-correlated", "err": cross})
@@ -423,8 +439,108 @@ def eval_case(case):
     return res
 
 
+# ----------------------------------------------------------------------------------------- probe vectors of inv_quad_logdet
+
+PROBE_CELLS = [(b, n, t) for b in ([], [2], [1, 3]) for n in (4, 7) for t in (1, 3)]
+
+
+def eval_probe(pc):
+    """functions/_inv_quad_logdet.py draws its probe vectors with precond_lt.zero_mean_mvn_samples(num_trace_samples)
+    (precond_lt = PsdSum(Root(L), Diag) of AddedDiagLinearOperator's pivoted-Cholesky preconditioner), moves the sample
+    axis last and normalises.  With recorded noise: (i) the preconditioner's sampler obeys the property (same checks and the
+    same Coq comparison as any other case), (ii) ctx.probe_vectors * ctx.probe_vector_norms is that draw in layout (*batch, n, t)."""
+    import linear_operator.operators as O
+    from linear_operator import settings
+    torch.set_num_threads(1)
+    batch, n, t, seed = pc["batch"], pc["n"], pc["t"], pc["nseed"]
+    res = {"fails": [], "notes": [], "coq": None, "probe": True}
+    g = torch.Generator().manual_seed(seed)
+    Bm = N._real_randn(*batch, n, n, generator=g, dtype=torch.float64)
+    A = (Bm @ Bm.mT / n + torch.eye(n, dtype=torch.float64)).requires_grad_(True)
+    d = (torch.rand(*batch, n, generator=g, dtype=torch.float64) + 0.5)
+    rng = random.Random(seed)
+    store = {}
+    try:
+        op = O.AddedDiagLinearOperator(O.DenseLinearOperator(A), O.DiagLinearOperator(d))
+        with settings.max_cholesky_size(0), settings.min_preconditioning_size(1), settings.max_preconditioner_size(2), \
+                settings.num_trace_samples(t), N.patched() as patch:
+            def prov(idx, size):
+                if idx not in store:
+                    store[idx] = torch.tensor([rng.randint(-8, 8) / 4 for _ in range(M.prod(size))], dtype=torch.float64)
+                return store[idx]
+            patch.calls, patch.provider = [], prov
+            _, ld = op.inv_quad_logdet(inv_quad_rhs=None, logdet=True)
+            plan = list(patch.calls)
+            node_fn, stack, seen = None, [ld.grad_fn], set()
+            while stack:
+                f = stack.pop()
+                if f is None or f in seen:
+                    continue
+                seen.add(f)
+                if hasattr(f, "probe_vectors"):
+                    node_fn = f
+                    break
+                stack += [x for x, _ in f.next_functions]
+            if node_fn is None or not plan:
+                res["notes"].append("probe draw not reached (plan=%r)" % (plan,))
+                return res
+            pv, pn = node_fn.probe_vectors.detach(), node_fn.probe_vector_norms.detach()
+            plt = op._preconditioner()[1]
+            L = plt.linear_ops[0].root.to_dense().detach().to(torch.float64)
+            dd = plt.linear_ops[1]._diag.detach().to(torch.float64)
+            L = L.expand(*batch, *L.shape[-2:])
+            dd = dd.expand(*batch, n)
+            P = L @ L.mT + torch.diag_embed(dd)                       # dense meaning of the preconditioner
+            zs = [store[i].tolist() for i in range(len(plan))]
+            smp, plan2 = N.run_with(patch, plt.zero_mean_mvn_samples, t, zs)
+            J, offs = N.jacobian(patch, plt.zero_mean_mvn_samples, t, plan2)
+    except Exception as ex:
+        res["notes"].append("probe case raised %s" % repr(ex)[:200])
+        return res
+    res["plan"] = [list(s_) for s_, _ in plan2]
+    res["out_shape"] = [int(x) for x in smp.shape]
+    exp_shape = [t] + list(batch) + [n]
+    if [list(s_) for s_, _ in plan] != res["plan"]:
+        res["fails"].append({"fail": "probe-noise", "what": "inv_quad_logdet did not draw exactly the preconditioner sampler's noise",
+                             "observed": [list(s_) for s_, _ in plan], "expected": res["plan"]})
+    if res["out_shape"] != exp_shape:
+        res["fails"].append({"fail": "shape", "observed": res["out_shape"], "expected": exp_shape})
+        return res
+    Bn = M.prod(batch)
+    Jf = J.reshape(t, Bn, n, J.shape[-1])
+    cov = Jf @ Jf.transpose(-1, -2)
+    scale = max(1.0, float(P.abs().max()))
+    res["cov_err"] = float((cov - P.reshape(Bn, n, n)[None]).abs().max()) / scale
+    res["cov_tol"] = 1e-9
+    res["cross"] = 0.0
+    res["methods"] = ["given"]
+    if not res["cov_err"] <= 1e-9:
+        res["fails"].append({"fail": "cov", "err": res["cov_err"], "tol": 1e-9, "what": "preconditioner sampler"})
+    expect = smp.permute(*range(1, smp.dim()), 0).to(torch.float64)          # (*batch, n, t)
+    lay = float((pv * pn - expect).abs().max()) if pv.shape == expect.shape else float("inf")
+    nrm = float((pn - expect.norm(dim=-2, keepdim=True)).abs().max()) if pv.shape == expect.shape else float("inf")
+    res["probe_layout_err"], res["probe_norm_err"] = lay, nrm
+    if not (lay <= 1e-9 * scale and nrm <= 1e-9 * scale):
+        res["fails"].append({"fail": "probe-layout", "layout_err": lay, "norm_err": nrm,
+                             "observed_shape": list(pv.shape), "expected_shape": list(expect.shape)})
+    r = int(L.shape[-1])
+    node = {"s": "add", "l": {"s": "add", "l": {"s": "zero", "bs": list(batch), "n": n},
+                               "r": {"s": "gen", "bs": list(batch), "n": n, "A": M.flat(L @ L.mT), "cls": "Root",
+                                     "rk": ("given", r, M.flat(L)), "method": "given" if n > 1 else "sqrt"}},
+            "r": {"s": "diag", "bs": list(batch), "n": n, "d": M.flat(dd)}}
+    st = (False, 0, True)
+    R, unexpl = M.canonical_root(node, st, t, J, offs)
+    if not unexpl <= 1e-9 * scale:
+        res["model_struct_mismatch"] = unexpl
+    res["coq"] = M.coq_case(st, t, node, False, zs, res["plan"], res["out_shape"], M.flat(smp), M.flat(R), M.flat(P.reshape(Bn, n, n)), 1e-9)
+    res["desc"] = "probe:" + M.describe_node(node)
+    return res
+
+
 def _worker(case):
     try:
+        if case.get("probe"):
+            return eval_probe(case)
         return eval_case(case)
     except Exception:
         return {"fails": [], "notes": [], "coq": None, "harness_error": traceback.format_exc()[-1200:]}
@@ -457,7 +573,7 @@ def report(ctx, case, res, seen):
         if sig in seen:
             continue
         seen.add(sig)
-        ctx.violation({"kind": "sampling-failure", "case": {k: case[k] for k in ("expr", "st", "st_name", "k", "nseed", "cell")},
+        ctx.violation({"kind": "sampling-failure", "case": dict(case),
                        "failure": f, "observed": {k: res.get(k) for k in ("out_shape", "plan", "cov_err", "cross", "methods")},
                        "expected": "draws of shape (k,*batch,n) = R z with R R^T = dense(expr) per batch member"}, key=key)
         n += 1
@@ -491,6 +607,10 @@ def run(ctx):
     cases = [make_case(ctx.seed, c, i) for i, c in enumerate(cells)]
     gen_err = [c for c in cases if "gen_error" in c]
     cases = [c for c in cases if "gen_error" not in c]
+    for i, (b, n, t) in enumerate(PROBE_CELLS if not ctx.quick else PROBE_CELLS[::2]):
+        cases.append({"probe": True, "batch": b, "n": n, "t": t, "nseed": random.Random("%s|probe|%d" % (ctx.seed, i)).randrange(1 << 30),
+                      "cell": ["probe-vectors", "cg+precond", b, t, n], "st_name": "probe", "st": [False, 0, True], "k": t,
+                      "expr": {"cls": "AddedDiag(probe)"}})
 
     state = {"results": None}
 
@@ -538,13 +658,13 @@ def run(ctx):
         n_model_alarm += 1
         if n_model_alarm <= 5:
             ctx.violation({"kind": "model-implementation-disagreement", "comparison": CODES.get(code, code),
-                           "case": {k: c[k] for k in ("expr", "st", "st_name", "k", "nseed", "cell")},
+                           "case": dict(c),
                            "observed": {k: r.get(k) for k in ("out_shape", "plan", "cov_err", "desc", "methods")},
                            "correspondence": "coq/C18/Check.v check (model on PrimFloat vs implementation)"}, no_input=True)
     for i, r in enumerate(results):
         if r.get("model_struct_mismatch") is not None and not r["fails"]:
             ctx.violation({"kind": "model-implementation-disagreement", "comparison": "noise-coordinate structure",
-                           "case": {k: cases[i][k] for k in ("expr", "st", "st_name", "k", "nseed", "cell")},
+                           "case": dict(cases[i]),
                            "unexplained": r["model_struct_mismatch"]}, no_input=True)
     # ---- coverage
     distinct = set()
@@ -553,7 +673,7 @@ def run(ctx):
         if r.get("skip") or "cov_err" not in r:
             continue
         distinct.add((opbuild.describe(c["expr"]), c["st_name"], tuple(r.get("out_shape", [])), c["k"], tuple(map(tuple, r.get("plan", [])))))
-        for m_ in r.get("methods", []) or ["(unmodelled)"]:
+        for m_ in r.get("methods", []) or ["(no generic leaf)"]:
             dist[m_] = dist.get(m_, 0) + 1
     evaluated = [r for r in results if "cov_err" in r]
     samples = []
@@ -605,7 +725,7 @@ def replay(rp):
         print("nothing to replay:", rp.get("kind"), json.dumps(rp.get("obligation", ""))[:400])
         return 1
     torch.set_num_threads(1)
-    r = eval_case(case)
+    r = eval_probe(case) if case.get("probe") else eval_case(case)
     print("expr:", opbuild.describe(case["expr"]), "setting:", case["st_name"], "k:", case["k"])
     print("randn shapes:", r.get("plan"), "out shape:", r.get("out_shape"), "cov_err:", r.get("cov_err"))
     print("failures:", json.dumps(r["fails"]))
